@@ -6,11 +6,8 @@ use std::sync::OnceLock;
 
 static OPEN: OnceLock<Vec<String>> = OnceLock::new();
 
-pub fn set_open(sigs: Vec<String>) {
-    let _ = OPEN.set(sigs);
-}
-
-/// Is `sig` listed as an open finding? (worker processes read the file themselves)
+/// Is `sig` listed as an open finding? Every process (driver, workers, replay)
+/// reads the committed file itself, so all of them explore the same domain.
 pub fn is_open(sig: &str) -> bool {
     OPEN.get_or_init(|| crate::driver::load_known().into_iter().map(|k| k.sig).collect()).iter().any(|s| s == sig)
 }
@@ -19,6 +16,27 @@ pub fn is_open(sig: &str) -> bool {
 /// Some(false) = no longer fails, None = unknown signature.
 pub fn probe(sig: &str) -> Option<bool> {
     match sig {
+        "raw-cr-eol-in-literal-string" => Some(probe_raw_cr_eol()),
         _ => None,
+    }
+}
+
+/// D7: ISO 32000-1 7.3.4.2 — an unescaped end-of-line marker inside a literal
+/// string is read as a single LF whether written as CR, LF or CR LF. Minimal
+/// file: object 1 is `(a<CR>b<CR><LF>c)`; a conforming reader returns
+/// 61 0A 62 0A 63. (The repository's own test `parser::tests::parse_string`
+/// pins the non-conforming behaviour, so this cannot be repaired without
+/// editing the suite; see DESIGN.md.)
+fn probe_raw_cr_eol() -> bool {
+    let body = b"%PDF-1.4\n1 0 obj\n(a\rb\r\nc)\nendobj\n";
+    let xref_at = body.len();
+    let mut f = body.to_vec();
+    f.extend_from_slice(format!("xref\n0 2\n0000000000 65535 f \n{:010} 00000 n \ntrailer\n<</Size 2>>\nstartxref\n{}\n%%EOF", 9, xref_at).as_bytes());
+    match crate::variants::sim::lopdf::Document::load_mem(&f) {
+        Ok(d) => match d.objects.get(&(1, 0)) {
+            Some(crate::variants::sim::lopdf::Object::String(s, _)) => s.as_slice() != b"a\nb\nc",
+            _ => true,
+        },
+        Err(_) => true,
     }
 }
